@@ -483,13 +483,12 @@ CHECKS["sweep_derived"] = _sweep_derived
 _SWEEPS = {"tetra": (4, 4), "octa": (0, 8), "cube": (1, 12), "sheet22": (5, 8), "prismfin": (6, 10), "sheet32": (7, 12), "icosa": (2, 20)}
 
 
-def shards(tier):
+def shards(tier, seed=1):
     out = []
     q = tier == "quick"
-    # exhaustive sub-complex sweeps
     for name in ["tetra", "octa", "sheet22"]:
         out.append({"check": "sweep", "parent": name, "lo": 1, "hi": 2 ** _SWEEPS[name][1]})
-    nparts = 8
+    nparts = 4
     total = 2 ** 12
     for i in range(nparts):
         out.append({"check": "sweep", "parent": "cube", "lo": max(1, i * total // nparts), "hi": (i + 1) * total // nparts})
@@ -501,8 +500,8 @@ def shards(tier):
         out.append({"check": "sweep", "parent": "icosa", "sample": 20000, "lo": 1, "hi": 2 ** 20})
         out.append({"check": "sweep_derived", "parent": "sheet22", "lo": 1, "hi": 256})
     n = 1 if q else 8
-    out.append({"check": "tables", "examples": 150 * n, "budget_s": 120 * n})
-    out.append({"check": "tables", "examples": 150 * n, "budget_s": 120 * n, "kind": "multitrace"})
+    out.append({"check": "tables", "examples": 200 * n, "budget_s": 150 * n})
+    out.append({"check": "tables", "examples": 100 * n, "budget_s": 120 * n, "kind": "multitrace"})
     out.append({"check": "refine", "examples": 60 * n, "budget_s": 120 * n})
     out.append({"check": "barycentric", "examples": 60 * n, "budget_s": 120 * n})
     out.append({"check": "union", "examples": 80 * n, "budget_s": 120 * n})
